@@ -27,6 +27,15 @@ Theorem C16_withmap_is_qualify : forall cfg m B, m <> [] -> table_ok cfg = true 
   parse cfg (pl_chain m B L) (fflatten cfg (fqualify m B (bnames L) r)) = POk e.
 Proof. exact withmap_is_qualify_full. Qed.
 
+(* ... and starting from the TEXT: every token list GenerateWithMap's parser accepts is the rendering of a program tree
+   (soundness of the parser model for the full grammar), whose qualified program parses in plain mode to the same AST *)
+Theorem C16_withmap_is_qualify_tokens : forall cfg m B, m <> [] -> table_ok cfg = true ->
+  forall L ts e, local L = true -> bound_in L m = false -> full_toks ts = true ->
+  parse cfg (wm_chain m B L) ts = POk e ->
+  exists r, fflatten cfg r = ts /\ fwf cfg r = true /\
+            (fresh m r = true -> parse cfg (pl_chain m B L) (fflatten cfg (fqualify m B (bnames L) r)) = POk e).
+Proof. exact withmap_is_qualify_tokens. Qed.
+
 (* the same on the rendering trees of the expression fragment (Syn/Render.v), kept for C03's fragment theorems: restricted to the expression fragment (operators, parentheses, identifiers,
    literals, member access, method call, call, index, list literal), under any enclosing binders L that do not
    rebind m.  Full statement (not proved, checked by correspondence):
@@ -125,6 +134,7 @@ Example C16_nonvacuous_full :
 Proof. vm_compute. repeat split. Qed.
 
 Print Assumptions C16_withmap_is_qualify.
+Print Assumptions C16_withmap_is_qualify_tokens.
 Print Assumptions C16_withmap_is_qualify_partial.
 Print Assumptions C16_attribute_lookup.
 Print Assumptions C16_other_lookup.
